@@ -124,7 +124,7 @@ def _parse_model(line: str):
     if outcome.startswith("ERR:") and counts:
         msgs = msgs[: counts[int(outcome.rsplit("@", 1)[1])]]
     st = dict(kv.split("=") for kv in state.split()) if state else {}
-    pk = {"c-dataend-cr": "c-dataend"}.get(st.get("pk"), st.get("pk"))
+    pk = st.get("pk")
     if eofs.startswith("EOFOK:") and eofs != "EOFOK:~":
         eofs = {"partial": _parse_msg(eofs[len("EOFOK:"):].split(":"))}
     return {"outcome": outcome, "msgs": msgs,
